@@ -8,6 +8,7 @@ import (
 	"bytes"
 	"encoding/json"
 	"errors"
+	"sort"
 	"sync"
 	"sync/atomic"
 	"unsafe"
@@ -389,8 +390,15 @@ func (m *ValueMap) Range(f func(key string, value *VMValue) bool) {
 		m.mu.Unlock()
 	}
 
-	for k, e := range read.m {
-		v, ok := e.load()
+	// 按键的字典序遍历: Go 的 map 遍历顺序每次不同，字典的文本形式、keys()/values()/items()、dir()、序列化结果
+	// 都经过这里——同一个种子下同一段脚本的结果不能随运行而变
+	keys := make([]string, 0, len(read.m))
+	for k := range read.m {
+		keys = append(keys, k)
+	}
+	sort.Strings(keys)
+	for _, k := range keys {
+		v, ok := read.m[k].load()
 		if !ok {
 			continue
 		}
